@@ -146,3 +146,29 @@ def gen_large_case(rng):
     return {"cands": cands, "ballots": [list(b) for b in ranks], "weights": weights, "winner": winner, "asn": rng.choice(("cp", "bp")),
             "order": [], "informal": 0, "warm": False, "dict_order": "preference", "cname": "con1", "rank_gaps": False,
             "stored_winner": None}
+
+
+def gen_eleven(rng):
+    """Eleven candidates; two ballots rank all of them, agreeing on eight and giving the other three the 0-based ranks
+    (1, 0, 10) and (10, 1, 0) - two different rankings whose rank numbers, written side by side without a separator, read
+    the same; the other ballots are short.  Rank numbers with two digits only occur with more than ten candidates."""
+    cands = [chr(65 + i) for i in range(11)]
+    rng.shuffle(cands)
+    i0 = rng.randint(0, 8)
+    a, b, c = sorted(cands)[i0:i0 + 3]      # (adjacent in candidate order: that is where the rank numbers stand side by side)
+    rest = [x for x in sorted(cands) if x not in (a, b, c)]
+    rng.shuffle(rest)
+    X = [b, a] + rest + [c]
+    Y = [c, b] + rest + [a]
+    ballots = [X, Y]
+    nc = rng.randint(2, 4)
+    for z, n in ((b, nc + rng.randint(3, 5)), (c, nc), (a, rng.randint(0, 1))):
+        ballots += [[z]] * n
+    if rng.random() < 0.5:
+        ballots.append([a, b])
+    rng.shuffle(ballots)
+    # (the reported winner is the true one, by a clear margin: with eleven candidates a contest that cannot be audited
+    # makes the search walk a tree of 10! leaves)
+    return {"cands": sorted(cands), "ballots": [list(x) for x in ballots], "winner": b, "asn": rng.choice(("cp", "bp")),
+            "order": [], "informal": 0, "warm": False, "dict_order": rng.choice(("preference", "candidate")), "cname": "con1",
+            "rank_gaps": False, "stored_winner": None}
